@@ -19,6 +19,10 @@ type Undecided struct {
 }
 
 type Analysis struct {
+	// escapes: module functions referenced as values (method values, function arguments): they have callers the
+	// syntactic call count does not see
+	escapes map[*FuncInfo]bool
+	hoCache map[*FuncInfo]bool
 	Prog  *Program
 	Sites map[string]*Site // key: fn|pos|kind|callee|loc
 	// per function ordered site list
@@ -59,7 +63,7 @@ type Analysis struct {
 // inlinable: a private, non-recursive helper with exactly one call site and a moderate body.
 func (a *Analysis) inlinable(fn *FuncInfo) bool {
 	a.computePurity()
-	if a.ncalls[fn] != 1 || ast.IsExported(fn.Decl.Name.Name) {
+	if a.ncalls[fn] != 1 || ast.IsExported(fn.Decl.Name.Name) || a.escapes[fn] {
 		return false
 	}
 	return stmtCount(fn.Decl.Body) <= 80
@@ -226,11 +230,55 @@ func (a *Analysis) computePurity() {
 						}
 					}
 				}
+				// an immediately invoked literal, or a local that only ever holds function literals (whose bodies are
+				// part of this function's body and judged with it) or module functions / method values (callees)
+				if _, ok := fun.(*ast.FuncLit); ok {
+					return true
+				}
+				if id, ok := fun.(*ast.Ident); ok {
+					if v, ok := info.Uses[id].(*types.Var); ok && !v.IsField() {
+						if fs, ok := localFuncTargets(a, fn, v); ok {
+							callees[fn] = append(callees[fn], fs...)
+							return true
+						}
+					}
+				}
 				impure = true
 			}
 			return true
 		})
 		direct[fn] = impure
+		// references outside call position
+		if a.escapes == nil {
+			a.escapes = map[*FuncInfo]bool{}
+		}
+		inCall := map[*ast.Ident]bool{}
+		ast.Inspect(fn.Decl.Body, func(n ast.Node) bool {
+			if call, ok := n.(*ast.CallExpr); ok {
+				switch f := ast.Unparen(call.Fun).(type) {
+				case *ast.Ident:
+					inCall[f] = true
+				case *ast.SelectorExpr:
+					inCall[f.Sel] = true
+				case *ast.IndexExpr:
+					if id, ok := ast.Unparen(f.X).(*ast.Ident); ok {
+						inCall[id] = true
+					}
+				case *ast.IndexListExpr:
+					if id, ok := ast.Unparen(f.X).(*ast.Ident); ok {
+						inCall[id] = true
+					}
+				}
+			}
+			if id, ok := n.(*ast.Ident); ok && !inCall[id] {
+				if f, ok := info.Uses[id].(*types.Func); ok {
+					if fi := a.Prog.Funcs[f.Origin()]; fi != nil {
+						a.escapes[fi] = true
+					}
+				}
+			}
+			return true
+		})
 	}
 	// fixpoint
 	for _, fn := range a.Prog.Funcs {
@@ -844,7 +892,7 @@ func (a *Analysis) computeSummary(fn *FuncInfo, ctx []Lit) *Summary {
 func (a *Analysis) solveSummaries() {
 	// seed: every module function with the empty context
 	for _, fn := range a.Prog.sortedFuncs() {
-		if !a.isPure(fn) {
+		if !a.isPure(fn) && !a.higherOrder(fn) {
 			a.summary(fn, nil)
 		}
 	}
@@ -929,6 +977,9 @@ func (a *Analysis) walkAll() {
 	a.resolveEpochWriter()
 	a.solveSummaries()
 	for _, fn := range a.Prog.sortedFuncs() {
+		if a.higherOrder(fn) {
+			continue // walked inline at its call sites (funcval.go)
+		}
 		a.walkFunc(fn, newState(), true)
 	}
 	for _, ss := range a.FnSites {
@@ -1036,4 +1087,88 @@ func (a *Analysis) cluster(root *FuncInfo) map[*FuncInfo]bool {
 	}
 	visit(root)
 	return out
+}
+
+
+// localFuncTargets: v is a local of fn that is only ever assigned function literals, module functions or method values
+// of module functions; returns the module functions among them.
+func localFuncTargets(a *Analysis, fn *FuncInfo, v *types.Var) ([]*FuncInfo, bool) {
+	info := fn.Pkg.TypesInfo
+	for _, p := range fn.Params {
+		if p == v {
+			return nil, false
+		}
+	}
+	ok := true
+	found := false
+	var out []*FuncInfo
+	classify := func(e ast.Expr) {
+		switch x := ast.Unparen(e).(type) {
+		case *ast.FuncLit:
+			found = true
+		case *ast.Ident:
+			if f, isF := info.Uses[x].(*types.Func); isF {
+				if fi := a.Prog.Funcs[f.Origin()]; fi != nil {
+					out = append(out, fi)
+					found = true
+					return
+				}
+			}
+			ok = false
+		case *ast.SelectorExpr:
+			if s := info.Selections[x]; s != nil && s.Kind() == types.MethodVal {
+				if f, isF := s.Obj().(*types.Func); isF {
+					if fi := a.Prog.Funcs[f.Origin()]; fi != nil {
+						out = append(out, fi)
+						found = true
+						return
+					}
+				}
+			}
+			ok = false
+		default:
+			ok = false
+		}
+	}
+	ast.Inspect(fn.Decl.Body, func(n ast.Node) bool {
+		switch s := n.(type) {
+		case *ast.AssignStmt:
+			for i, l := range s.Lhs {
+				id, isId := ast.Unparen(l).(*ast.Ident)
+				if !isId {
+					continue
+				}
+				obj := info.Defs[id]
+				if obj == nil {
+					obj = info.Uses[id]
+				}
+				if obj != v {
+					continue
+				}
+				if len(s.Rhs) == len(s.Lhs) {
+					classify(s.Rhs[i])
+				} else {
+					ok = false
+				}
+			}
+		case *ast.ValueSpec:
+			for i, id := range s.Names {
+				if info.Defs[id] == v {
+					if i < len(s.Values) {
+						classify(s.Values[i])
+					} else if len(s.Values) != 0 {
+						ok = false
+					}
+				}
+			}
+		case *ast.UnaryExpr:
+			if s.Op == token.AND {
+				if id, isId := ast.Unparen(s.X).(*ast.Ident); isId && info.Uses[id] == v {
+					ok = false
+				}
+			}
+		}
+		return true
+	})
+	return out, ok && found
 }
